@@ -441,10 +441,22 @@ def build_c06(rng, tier):
         pool = st if (rng.random() < 0.5 and st) or not un else un
         byz.append(list(rng.choice(pool)))
     ops = []
+
+    def direct(k):
+        # the stability check called directly, several assignments in a row
+        # on the same Model object (no solve in between)
+        for _ in range(k):
+            pool = st if (rng.random() < 0.5 and st) or not un else un
+            ops.append(['check_stability',
+                        {'assignment': list(rng.choice(pool))}])
+    if rng.random() < 0.3:
+        direct(rng.randint(1, 3))          # before the first solve
     for _ in range(n):
         ops.append(['solve', {}])
         ops.append([rng.choice(['get_results', 'get_results_short',
                                 'get_results_long'])])
+        if rng.random() < 0.4:
+            direct(rng.randint(1, 4))
     sc = lp_base(rng, inst, opts, ops=ops, policy='uniform')
     sc['backend']['faults'] = [{'round': 1, 'kind': 'byzantine',
                                 'persist': True}]
